@@ -225,6 +225,12 @@ def stream_size(stream):
         raise StreamError("stream. seek() tell() failed", path="???")
 
 
+def stream_skipped(stream, offset, path):
+    """Used by the lazy constructs after seeking over fields instead of reading them: seeking beyond the end succeeds silently."""
+    if offset > stream_size(stream):
+        raise StreamError("stream ends before offset %s, where the skipped fields end" % (offset,), path=path)
+
+
 def stream_iseof(stream):
     try:
         fallback = stream.tell()
@@ -5952,6 +5958,7 @@ class Lazy(Subconstruct):
             return lambda: obj
         # measuring may have read a length field, so skip from the remembered offset
         stream_seek(stream, offset + size, 0, path)
+        stream_skipped(stream, offset + size, path)
         return execute
 
     def _build(self, obj, stream, context, path):
@@ -6070,6 +6077,7 @@ class LazyStruct(Construct):
                     context[sc.name] = parseret
                 offset = stream_tell(stream, path)
             offsets[i+1] = offset
+        stream_skipped(stream, offset, path)
         return LazyContainer(self, stream, offsets, values, context, path)
 
     def _build(self, obj, stream, context, path):
@@ -6196,6 +6204,7 @@ class LazyArray(Subconstruct):
                 values[i] = parseret
                 offset = stream_tell(stream, path)
             offsets[i+1] = offset
+        stream_skipped(stream, offset, path)
         return LazyListContainer(sc, stream, count, offsets, values, context, path)
 
     def _build(self, obj, stream, context, path):
